@@ -34,7 +34,11 @@ def container_field_domains():
     cmds = [None] + [[a] for a in T] + [[a, b] for a, b in itertools.product(T, repeat=2)]
     ports = [list(c) for n in range(4) for c in itertools.combinations(PORTS, n)]
     mounts = [[]] + [[[s, t]] for s, t in itertools.product(PATHS, repeat=2)] + [[[PATHS[0], t], [PATHS[1], u]] for t, u in itertools.product(PATHS, repeat=2)]
-    return {"entrypoint": [None] + T, "command": cmds, "env": env_maps(), "ports": ports, "mounts": mounts}
+    # sources that exist: a directory, a symlink to it, the same directory through a redundant path
+    # (ROOT is replaced by the scenario's scratch root): each configured mount must arrive as written
+    real = [[["ROOT/mnt/dir1", "/t1"]], [["ROOT/mnt/link1", "/t1"]], [["ROOT/mnt/dir1", "/t1"], ["ROOT/mnt/link1", "/t2"]],
+            [["ROOT/mnt/dir1", "/t1"], ["ROOT/mnt/./dir1/../dir1", "/t2"], ["ROOT/mnt/link1", "/t3"]]]
+    return {"entrypoint": [None] + T, "command": cmds, "env": env_maps(), "ports": ports, "mounts": mounts + real}
 
 
 BUILD_DEFAULT = {"builder": "b:1", "env": [], "buildpacks": ["some/bp"], "app_dir": "fixture", "preprocessor": False}
@@ -73,6 +77,10 @@ def special_layout(kind):
     the fixture) while a lexical clean-up would give the decoy crate/links/app"""
     def layout(root):
         crate = os.path.join(root, "crate")
+        os.makedirs(os.path.join(root, "mnt", "dir1"))
+        os.symlink("dir1", os.path.join(root, "mnt", "link1"))
+        if kind is None:
+            return
         if kind == "SYMLINK":
             os.symlink(os.path.join(crate, "fixture"), os.path.join(crate, "app-link"))
         else:
@@ -89,8 +97,9 @@ def run_cfg(arg):
     idx, (b, c), scratch = arg
     root = os.path.join(scratch, f"c17-{os.getpid()}-{idx}")
     b2 = dict(b)
-    layout = None
+    layout = special_layout(None)
     app_real = os.path.join(root, "crate", "fixture")
+    c = dict(c, mounts=[[s_.replace("ROOT", root), t_] for s_, t_ in c["mounts"]])
     if b2["app_dir"] == "ABS":
         b2["app_dir"] = os.path.join(root, "crate", "fixture")
     elif b2["app_dir"] == "SYMLINK":
@@ -109,6 +118,7 @@ def run_cfg(arg):
         res["path_real"] = [os.path.realpath(e["argv"][e["argv"].index("--path") + 1]) for e in res["log"] if e["prog"] == "pack" and "--path" in e["argv"]]
         res["app_real"] = os.path.realpath(app_real)
         res["preprocessor_effective"] = b2["preprocessor"]
+        res["mounts_effective"] = c["mounts"]
 
     r = run_scenario(root, sc, layout=layout, post=post)
     r["root"] = root
@@ -183,8 +193,8 @@ def judge(r, b, c):
     for m in rget("mount"):
         fields = dict(f.split("=", 1) if "=" in f else (f, "") for f in m.split(","))
         mounts.append((fields.get("type"), fields.get("source"), fields.get("target")))
-    if sorted(mounts) != sorted(("bind", s, t) for s, t in dict((s, t) for s, t in c["mounts"]).items()):
-        v.append(("mounts", f"docker run --mount decodes to {mounts}, configured {c['mounts']}"))
+    if sorted(mounts) != sorted(("bind", s, t) for s, t in dict((s, t) for s, t in r["mounts_effective"]).items()):
+        v.append(("mounts", f"docker run --mount decodes to {mounts}, configured {r['mounts_effective']}".replace(r["root"], "ROOT")))
     if not dr["detach"] or not dr["name"]:
         v.append(("run-flags", "docker run without --detach/--name"))
     extra = [k for k, _ in ro if k not in ("name", "detach", "platform", "entrypoint", "env", "publish", "mount")]
@@ -208,7 +218,9 @@ def judge_rebuild(r, b1, b2):
     dec = []
     for e in r["log"]:
         try:
-            dec.append(decode(e))
+            d = decode(e)
+            d["entry"] = e
+            dec.append(d)
         except ParseError as ex:
             v.append(("argv-not-parseable", f"{e['prog']} {e['argv']}: {ex}"))
     if r["outcome"] != "ok":
@@ -228,6 +240,12 @@ def judge_rebuild(r, b1, b2):
         envs = sorted(tuple(x.split("=", 1)) if "=" in x else (x, None) for x in get("env"))
         if envs != sorted((k, val) for k, val in b["env"]):
             v.append((f"{which}-env", f"{which}: pack --env decodes to {envs}, configured {b['env']}"))
+        # what pack was pointed at holds exactly this build's view of the app
+        listing = pb["entry"]["path_listing"]
+        want = {False: FIXTURE_FILES, True: dict(FIXTURE_FILES, **{"added-by-preprocessor": "x", "file.txt": "changed"}), "A": dict(FIXTURE_FILES, **{"added-by-preprocessor": "x", "file.txt": "changed"}),
+                "B": dict(FIXTURE_FILES, **{"added-by-B": "y", "file.txt": "changed-by-B"})}[b["preprocessor"]]
+        if listing != want:
+            v.append((f"{which}-app-content", f"{which}: the app directory given to pack holds {listing}, this build's configuration (preprocessor {b['preprocessor']!r}) gives {want}"))
         caches = sorted(get("cache"))
         if caches != sorted(c for c in [f"type=build;format=volume;name={pb['image']}.build-cache", f"type=launch;format=volume;name={pb['image']}.launch-cache"]):
             v.append((f"{which}-cache-volumes", f"{which}: pack --cache {caches}"))
@@ -265,6 +283,9 @@ def run(ctx):
     bd = build_field_domains()
     variants = [dict(BUILD_DEFAULT, builder=x) for x in bd["builder"][:4]] + [dict(BUILD_DEFAULT, env=x) for x in bd["env"][1:12:2]] + [dict(BUILD_DEFAULT, buildpacks=x) for x in bd["buildpacks"][::9][:6]]
     pairs = [(a, b) for a in variants[::2] for b in variants[1::2]] if ctx.thorough else list(zip(variants, variants[1:] + variants[:1]))
+    # every pair of preprocessor settings (none, A, B) for build and rebuild
+    for p1, p2 in itertools.product([False, "A", "B"], repeat=2):
+        pairs.append((dict(BUILD_DEFAULT, preprocessor=p1), dict(BUILD_DEFAULT, preprocessor=p2)))
     if ctx.replay:
         pairs = []
     with ProcessPoolExecutor(max_workers=16) as ex:
@@ -276,7 +297,7 @@ def run(ctx):
     res.cov("evaluations", len(cfgs) + len(pairs))
     res.cov("distinct_nontrivial", len(cfgs) - 2)
     res.cov("distinct_outcomes", len(shapes))
-    res.cov("rule", "configurations = each field varied over its full domain against defaults (builder over 9 strings; env maps of <=2 keys x 10 value strings incl. '', leading dashes, spaces, '=', Unicode, shell metacharacters; buildpack lists of length <=3; relative/absolute app dir; preprocessor; entrypoint None+10 strings; commands of <=2 elements; all port subsets of {80,8080,65535}; <=2 bind mounts over 4 paths) and, in thorough, all pairs of fields over thinned domains; each run through the real TestRunner with stand-in CLIs; the logged argv is decoded with reference parsers and compared with the configuration; non-trivial = non-default configurations")
+    res.cov("rule", "configurations = each field varied over its full domain against defaults (builder over 9 strings; env maps of <=2 keys x 10 value strings incl. '', leading dashes, spaces, '=', Unicode, shell metacharacters; buildpack lists of length <=3; relative/absolute app dir; preprocessor; entrypoint None+10 strings; commands of <=2 elements; all port subsets of {80,8080,65535}; <=2 bind mounts over 4 synthetic paths plus existing sources: a directory, a symlink to it and a redundant spelling of it, up to 3 at once); build+rebuild pairs incl. every pair of preprocessor settings {none, A, B} with the app content pack saw judged per build and, in thorough, all pairs of fields over thinned domains; each run through the real TestRunner with stand-in CLIs; the logged argv is decoded with reference parsers and compared with the configuration; non-trivial = non-default configurations")
     res.cov("exhaustive", True)
     res.sample({"build": cfgs[3][0], "container": cfgs[3][1]})
     res.sample({"build": cfgs[len(cfgs) // 2][0], "container": cfgs[len(cfgs) // 2][1]})
